@@ -346,7 +346,13 @@ pub fn check_program(case: &SemCase, st: &mut Stats, ex: &Excl, levels: &[u8]) -
     let adjacent = case.labels.iter().any(|l| {
         matches!(
             l.as_str(),
-            "load-store-same-operand" | "load-register-then-strobe" | "explicit-next-to-ordinary" | "csleep-between-assignment-and-test" | "two-loads"
+            "load-store-same-operand"
+                | "load-register-then-strobe"
+                | "explicit-next-to-ordinary"
+                | "csleep-between-assignment-and-test"
+                | "two-loads"
+                | "lone-load"
+                | "store-after-ordinary"
         )
     });
     for l in &case.labels {
